@@ -125,6 +125,36 @@ def head_says_chunked(phead: bytes) -> bool:
     return bool(vals) and codings[-1] == b"chunked"
 
 
+def te_probe(v: bytes):
+    """the real reader's and the real writer's verdict on one Transfer-Encoding value"""
+    from mitmproxy import http as mhttp
+    from mitmproxy.connection import ConnectionState, Server
+    from mitmproxy.net.http.http1 import read as h1read
+    from mitmproxy.proxy import commands as mcmds, events as mevents
+    from mitmproxy.proxy.layers.http._events import RequestData, RequestHeaders
+    from mitmproxy.proxy.layers.http._http1 import Http1Client
+    req = mhttp.Request.make("POST", "http://a.example/p", b"", {})
+    req.headers = mhttp.Headers([(b"Host", b"a.example"), (b"Transfer-Encoding", v)])
+    rsp = mhttp.Response.make(200, b"", {}); rsp.headers = mhttp.Headers([(b"Transfer-Encoding", v)])
+    try:
+        n = h1read.expected_http_body_size(req, rsp)
+        reads = "chunked" if n is None else "other"
+    except ValueError:
+        reads = "err"
+    ctx = make_context()
+    ctx.server = Server(address=("a.example", 80)); ctx.server.state = ConnectionState.OPEN
+    lay = Http1Client(ctx)
+    out = list(lay.handle_event(mevents.Start()))
+    out += list(lay.handle_event(RequestHeaders(1, req, False)))
+    out = list(lay.handle_event(RequestData(1, b"ab")))
+    sent = b"".join(c.data for c in out if isinstance(c, mcmds.SendData))
+    return {"reads": reads, "writes": sent == b"2\r\nab\r\n", "raw": sent == b"ab"}
+
+
+def ref_final_chunked(v: bytes) -> bool:
+    return [c.strip(b" \t").lower() for c in v.split(b",")][-1] == b"chunked"
+
+
 def status_of(raw: bytes):
     if not raw.startswith(b"HTTP/1.1 "): return None
     try: return int(raw[9:12])
@@ -514,13 +544,15 @@ class Check(PropertyCheck):
                   "driven by Http1Connection.read_body) as an Incremental byte consumer, and of human.parse_size over the "
                   "regenerated SIZE_UNITS table — for ALL option values, expected sizes, wire bytes, segmentations, chunk lists "
                   "and callables (induction): over_limit_errors, buffer_bound_partial (+ buffer_bound_counterexample for the "
-                  "recorded finding), response_side_independent / request_side_independent / request_verdict_never_reaches_response / upload_unaffected_by_response_timing "
+                  "recorded finding), response_side_independent / request_side_independent / request_verdict_never_reaches_response / upload_unaffected_by_response_timing, writer_agrees_with_reader (for every "
+                  "Transfer-Encoding value the reader accepts the writers' chunk-framing test gives the reader's answer; over C01's parseTE) "
                   "(one exchange: the request-side verdict, flags and buffers never take part in the response side), streamed_exact, relayed_exact_any_chunking, relayed_exact_events, stored_iff_option, "
                   "unstored_stream_holds_nothing, reader_lawful / reader_segmentation_independent, wire_events_carry_body, "
                   "wire_body_segmentation_independent, wire_relay_segmentation_independent (the same wire bytes in any two "
                   "segmentations deliver the same bytes to the peer), parseSize laws. The model is tied to the real "
                   "HttpLayer/HttpStream/Http1 stack run through world.py: error hook, client error, the exact chunk list the peer "
                   "receives, the buffer length after every delivery, the stored content and the readers' verdict are compared for "
+                  "every Transfer-Encoding spelling the reader takes for chunked (case, coding lists with OWS/tabs, two header lines), "
                   "both directions, HTTP/1 and HTTP/2 peers on either side (all four pairs) with the response arriving before, during "
                   "or after the request body (also both in ONE exchange: request body and response body with independently drawn sizes), three framings, all option combinations, fourteen stream policies, chunk-aligned deliveries "
                   "AND raw wire bytes (well-formed and mutated chunked encoding) in arbitrary segmentations.")
@@ -535,7 +567,11 @@ class Check(PropertyCheck):
                   "is stated for runs that end `done` without a callable (with a late switch the outcome abort-vs-stream itself "
                   "depends on the segmentation in the code). partial: buffer_bound is proved under the guard 'not "
                   "(store_streamed_bodies and streaming)'; the unguarded statement is refuted by buffer_bound_counterexample "
-                  "and recorded as finding F-C07a.")
+                  "and recorded as finding F-C07a. Lenient branches of the oracle, all structured: the NotImplementedError crash of a "
+                  "non-empty HTTP/1 trailer section is waived; the 'client receives an error' clause is waived when the delivery that "
+                  "shows the excess also carries malformed chunk framing (protocol error closes first); exact-bytes for wire cases is "
+                  "demanded for byte-homomorphic policies only (dup/iter depend on event boundaries); length-changing callables are not "
+                  "drawn under a declared content-length towards HTTP/2 peers; an empty Transfer-Encoding value is skipped in `te` cases.")
     technique = "Lean 4 proof (invariants over event lists, arbitrary stream callable) + translator table + end-to-end correspondence through the real HttpLayer"
     rule = ("grid: direction x framing (content-length, chunked, until-EOF for responses) x 2^3 option combinations "
             "(body_size_limit set?, stream_large_bodies set?, store_streamed_bodies) x 14 stream policies x body sizes in "
@@ -543,7 +579,7 @@ class Check(PropertyCheck):
             "bodies/chunkings/option values (incl. k/m suffixes); wire: a body framed by content-length / chunked (hex case, leading "
             "zeros, extensions, OWS; 20 % with one mutation) / until-close, cut into 1-6 segments that ignore the framing; size: parse_size on generated option strings. distinct = "
             "distinct case; non-trivial = body non-empty or option string non-trivial.")
-    budget = {"quick": 4000, "thorough": 120000}
+    budget = {"quick": 3000, "thorough": 120000}
     time_budget = {"quick": 25, "thorough": 600}
     fingerprints = ["mitmproxy.proxy.layers.http:HttpStream.check_body_size",
                     "mitmproxy.proxy.layers.http:HttpStream.state_wait_for_request_headers",
@@ -562,6 +598,8 @@ class Check(PropertyCheck):
                     "mitmproxy.proxy.layers.http._http2:Http2Client.handle_h2_event",
                     "mitmproxy.proxy.layers.http._http2:Http2Connection.handle_h2_event",
                     "mitmproxy.proxy.layers.http._http2:Http2Connection._handle_event",
+                    "mitmproxy.net.http.validate:parse_transfer_encoding",
+                    "mitmproxy.net.http.http1.read:expected_http_body_size",
                     "mitmproxy.utils.human:parse_size",
                     "mitmproxy.addons.proxyserver:Proxyserver.configure"]
     trusted_base = ["h11 body readers (ContentLengthReader/ChunkedReader/Http10Reader) as the source of data events",
@@ -601,7 +639,22 @@ class Check(PropertyCheck):
                     side["te"] = rng.pick(TE_SPELLINGS)
             yield case
 
+    @staticmethod
+    def _te(rng):
+        codings = ["chunked", "gzip", "deflate", "compress", "identity", "Chunked", "GZIP", "br", "x-chunked", "chunkedx", ""]
+        n = rng.pick([1, 1, 2, 2, 3])
+        v = ""
+        for i in range(n):
+            if i: v += rng.pick(["", " ", "\t", "  "]) + "," + rng.pick(["", " ", "\t", " \t"])
+            v += rng.pick(codings)
+        if rng.chance(0.05): v = rng.pick([" ", "\t"]) + v
+        if rng.chance(0.05): v += rng.pick([" ", ";q=1", ","])
+        return {"op": "te", "v_hex": hx(v.encode())}
+
     def _generate(self, rng, tier):
+        for v in [x for x in TE_SPELLINGS if not x.startswith("2lines")] + ["gzip", "identity", "chunked, gzip", "chunked,chunked", "br, chunked",
+                                                                            "chunkedx", "x-chunked", " chunked", "chunked ", ",chunked"]:
+            yield {"op": "te", "v_hex": hx(v.encode())}
         for s in ["0", "1", "10", "1k", "1m", "2g", "1t", "3b", "k", "", "1K", "1kb", " 7 ", "1_0", "1__0", "_1", "+5", "-5",
                   "- 5", "5 k", " 5k", "5k ", "0x10", "1e3", "١٢", "1.5m", "00012", "\x1c3", "12\n"]:
             yield {"op": "size", "s_hex": hx(s.encode())}
@@ -654,8 +707,11 @@ class Check(PropertyCheck):
         sz = lambda n: str(n)
         while True:
             r = rng.random()
-            if r < 0.08:
+            if r < 0.06:
                 yield {"op": "size", "s_hex": hx(self._size_string(rng).encode("utf-8"))}
+                continue
+            if r < 0.1:
+                yield self._te(rng)
                 continue
             if r < 0.4:
                 yield self._wire(rng)
@@ -794,6 +850,9 @@ class Check(PropertyCheck):
                 return {"size": human.parse_size(s)}
             except ValueError:
                 return {"size": "err"}
+        if case["op"] == "te":
+            if not unhx(case["v_hex"]): raise Skip()      # an empty value is "no Transfer-Encoding" to headers.get(): not a TE value
+            return te_probe(unhx(case["v_hex"]))
         if case["op"] == "x2":
             obs = run_x2(case)
             self._stash = (json.dumps(case, sort_keys=True), obs)
@@ -815,6 +874,16 @@ class Check(PropertyCheck):
 
     def oracle(self, case, obs):
         if case["op"] == "size" or obs.get("rejected"): return []
+        if case["op"] == "te":
+            # a body the reader de-chunks must be chunk-framed again by the writer (and only such a body): for every
+            # value the reader accepts, both must agree with the field's meaning (chunked is the final coding)
+            if obs["reads"] == "err": return []
+            ref = ref_final_chunked(unhx(case["v_hex"]))
+            out = []
+            if (obs["reads"] == "chunked") != ref: out.append(f"te: the reader takes {unhx(case['v_hex'])!r} for {obs['reads']}")
+            if obs["writes"] != ref or obs["raw"] == ref:
+                out.append(f"te: the writer {'does not chunk-frame' if ref else 'chunk-frames'} a body under Transfer-Encoding {unhx(case['v_hex'])!r}")
+            return out
         if case["op"] in ("exch", "x2"):
             # the per-direction clauses, each on its own direction of the same exchange
             out = []
@@ -1001,6 +1070,8 @@ class Check(PropertyCheck):
     def model_lines(self, case):
         if case["op"] == "size":
             return ["size " + case["s_hex"]]
+        if case["op"] == "te":
+            return ["te " + case["v_hex"]]
         opt = lambda v: "none" if v is None else hx(v.encode())
         if any(case.get(k) is not None and not case[k].isascii() for k in ("limit", "thr")): raise Skip()
         if case["op"] in ("exch", "x2"):
@@ -1031,7 +1102,7 @@ class Check(PropertyCheck):
 
     def model_obs(self, case, replies):
         r = replies[0]
-        if case["op"] == "size" or r in ("rejected", "bad-op"): return r
+        if case["op"] in ("size", "te") or r in ("rejected", "bad-op"): return r
         if case["op"] in ("exch", "x2"):
             a, b = r.split(" | ")
             subs = self._sides(case, {"pre": None, "main": None})
@@ -1061,6 +1132,8 @@ class Check(PropertyCheck):
     def impl_view(self, case, obs):
         if case["op"] == "size":
             return "err" if obs["size"] == "err" else f"ok {obs['size']}"
+        if case["op"] == "te":
+            return f"{obs['reads']} {int(obs['writes'])}"
         if obs.get("rejected"): return "rejected"
         if case["op"] in ("exch", "x2"):
             subs = self._sides(case, obs)
@@ -1075,6 +1148,7 @@ class Check(PropertyCheck):
 
     def classify(self, case, obs):
         if case["op"] == "size": return ("size", case["s_hex"]) if case["s_hex"] != "-" else None
+        if case["op"] == "te": return ("te", case["v_hex"])
         if case["op"] in ("exch", "x2"):
             return json.dumps(case, sort_keys=True)
         if case["op"] == "wire":
@@ -1086,6 +1160,7 @@ class Check(PropertyCheck):
 
     def branches(self, case, obs):
         if case["op"] == "size": return ["size:" + ("err" if obs["size"] == "err" else "ok")]
+        if case["op"] == "te": return ["te:" + obs["reads"]]
         if obs.get("rejected"): return ["flow:option-rejected"]
         if case["op"] in ("exch", "x2"):
             def verdict(o):
